@@ -1072,6 +1072,17 @@ func (ex *Exec) instr(in ssa.Instruction) {
 				ex.roStored[a] = true
 			}
 		}
+		if fa, ok := i.Addr.(*ssa.FieldAddr); ok {
+			// contracts can attach assertions to a field store as to a call:
+			//   assert label @before call store_T_f[*]: expr   (arg0 = the object, arg1 = the value stored)
+			if T, f, ok := fieldOfLoad(fa); ok {
+				base := ex.val(fa.X)
+				if base.P == nil && base.T != "" {
+					args := []TV{{T: base.T, Ty: fa.X.Type()}, {T: ex.val(i.Val).T, Ty: i.Val.Type()}}
+					ex.callSiteClauses("store_"+T+"_"+f, -1, "before", args, nil, i.Pos(), i)
+				}
+			}
+		}
 		ex.store(i.Addr, ex.val(i.Val).T)
 		// preserving writers of a type invariant re-establish it right after each write
 		if fa, ok := i.Addr.(*ssa.FieldAddr); ok && ex.pass == 2 {
